@@ -33,4 +33,17 @@ def flatten (bs : List FBatch) : List FBatch := bs.foldl (fun gs b => absorb b g
 
 def allEntries (bs : List FBatch) : List FEntry := bs.flatMap (·.entries)
 
+/-- `AddToFile`: `sort.Slice(entries, less by TraceNumber)` — an insertion into trace order (the sort is unstable,
+but inside a group trace numbers are distinct, so the result is the unique ascending arrangement) -/
+def insertByTrace (e : FEntry) : List FEntry → List FEntry
+  | [] => [e]
+  | x :: xs => if e.trace ≤ x.trace then e :: x :: xs else x :: insertByTrace e xs
+
+def sortByTrace : List FEntry → List FEntry
+  | [] => []
+  | e :: es => insertByTrace e (sortByTrace es)
+
+/-- the batches as they are added to the new file: each group's entries in trace order -/
+def flattenSorted (bs : List FBatch) : List FBatch := (flatten bs).map (fun g => { g with entries := sortByTrace g.entries })
+
 end Ach.Flatten
